@@ -423,6 +423,7 @@ type intEnv struct {
 	// overflow companion: every +, -, *, unary -, / and % translated since the last drain, as Lean
 	// Bool expressions that are true iff the Go int result would leave the int64 range (or divide by 0)
 	pending []string
+	depth   int // nesting of inlined helper calls
 	ovfMode bool // block() builds the overflow companion (a Bool) instead of the function's value
 }
 
@@ -455,6 +456,11 @@ func (s scope) clone() scope {
 	return c
 }
 
+// functions that are emitted as Lean definitions of their own (calls to them stay calls); every
+// other package-level function called from a translated body is inlined
+var emittedByName = map[string]bool{"bigExponent": true, "digitOutOfRange": true, "formatSpecForF": true,
+	"formatSpecForG": true, "formatSpecForE": true}
+
 var structFields = map[string][]string{
 	"formatSpec": {"sigDigits", "exactDigitCount", "sci", "capital"},
 }
@@ -476,6 +482,15 @@ func (e *intEnv) expr(x ast.Expr, sc scope) string {
 		}
 		if s, ok := sc[v.Name]; ok {
 			return s
+		}
+		if typ, ok := sc[v.Name+".#type"]; ok {
+			if fs, ok := structFields[typ]; ok {
+				var parts []string
+				for _, f := range fs {
+					parts = append(parts, f+" := "+sc[v.Name+"."+f])
+				}
+				return "({ " + strings.Join(parts, ", ") + " } : Sqroot.FormatSpec)"
+			}
 		}
 		if n, ok := e.p.intConst(v.Name); ok {
 			return leanInt(n)
@@ -540,6 +555,11 @@ func (e *intEnv) expr(x ast.Expr, sc scope) string {
 			return "(" + a + " || " + b + ")"
 		}
 	case *ast.SelectorExpr:
+		if id, ok := v.X.(*ast.Ident); ok {
+			if val, ok := sc[id.Name+"."+v.Sel.Name]; ok { // field of a struct-typed local
+				return val
+			}
+		}
 		if id, ok := v.X.(*ast.Ident); ok && id.Name == e.recv {
 			e.fields[v.Sel.Name] = true
 			return "p_" + v.Sel.Name
@@ -556,6 +576,45 @@ func (e *intEnv) expr(x ast.Expr, sc scope) string {
 		if id, ok := v.Fun.(*ast.Ident); ok {
 			if id.Name == "min" && len(v.Args) == 2 {
 				return "(min " + e.expr(v.Args[0], sc) + " " + e.expr(v.Args[1], sc) + ")"
+			}
+			if callee, ok := e.p.funcs[id.Name]; ok && !emittedByName[id.Name] && callee.Recv == nil && callee.Body != nil && e.depth < 6 {
+				// an unexported pure helper: inline its body (symbolic evaluation with the arguments bound)
+				csc := scope{}
+				i := 0
+				okArgs := true
+				for _, f := range callee.Type.Params.List {
+					for _, n := range f.Names {
+						if i >= len(v.Args) {
+							okArgs = false
+							break
+						}
+						csc[n.Name] = e.expr(v.Args[i], sc)
+						i++
+					}
+				}
+				if okArgs && i == len(v.Args) {
+					e.depth++
+					saveCtx := e.ctx
+					e.ctx = saveCtx + " (inlined " + id.Name + ")"
+					saveMode := e.ovfMode
+					e.ovfMode = false
+					mark := len(e.pending)
+					res := e.block(callee.Body.List, csc.clone(), func(scope) string {
+						e.o.problem("%s: control reaches end of inlined function", e.ctx)
+						return "default"
+					})
+					e.drain(mark)
+					e.ovfMode = true
+					ovf := e.block(callee.Body.List, csc.clone(), func(scope) string { return "false" })
+					e.drain(mark)
+					if ovf != "false" {
+						e.pending = append(e.pending, ovf)
+					}
+					e.ovfMode = saveMode
+					e.ctx = saveCtx
+					e.depth--
+					return res
+				}
 			}
 			if _, ok := e.p.funcs[id.Name]; ok {
 				parts := []string{id.Name}
@@ -633,10 +692,36 @@ func (e *intEnv) block(stmts []ast.Stmt, sc scope, rest func(scope) string) stri
 			}
 			_ = wrap
 			for i := range s.Lhs {
+				if sel, ok := s.Lhs[i].(*ast.SelectorExpr); ok {
+					// result.field = expr  (struct-typed local)
+					if base, ok := sel.X.(*ast.Ident); ok {
+						if _, isStruct := sc[base.Name+".#type"]; isStruct && s.Tok == token.ASSIGN {
+							n[base.Name+"."+sel.Sel.Name] = e.expr(s.Rhs[i], sc)
+							continue
+						}
+					}
+				}
 				id, ok := s.Lhs[i].(*ast.Ident)
 				if !ok {
 					e.o.problem("%s: assignment to non-identifier", e.ctx)
 					continue
+				}
+				if cl, ok := s.Rhs[i].(*ast.CompositeLit); ok {
+					if tid, ok := cl.Type.(*ast.Ident); ok {
+						if fs, ok := structFields[tid.Name]; ok && (s.Tok == token.DEFINE || s.Tok == token.ASSIGN) {
+							// result := formatSpec{...}: remember every field separately
+							n[id.Name+".#type"] = tid.Name
+							for _, f := range fs {
+								n[id.Name+"."+f] = structZero[f]
+							}
+							for _, el := range cl.Elts {
+								if kv, ok := el.(*ast.KeyValueExpr); ok {
+									n[id.Name+"."+kv.Key.(*ast.Ident).Name] = e.expr(kv.Value, sc)
+								}
+							}
+							continue
+						}
+					}
 				}
 				rhs := e.expr(s.Rhs[i], sc)
 				switch s.Tok {
@@ -682,6 +767,11 @@ func (e *intEnv) block(stmts []ast.Stmt, sc scope, rest func(scope) string) stri
 					n[id.Name] = e.expr(vs.Values[i], sc)
 				} else if t, ok := vs.Type.(*ast.Ident); ok && t.Name == "bool" {
 					n[id.Name] = "false"
+				} else if t, ok := vs.Type.(*ast.Ident); ok && structFields[t.Name] != nil {
+					n[id.Name+".#type"] = t.Name
+					for _, f := range structFields[t.Name] {
+						n[id.Name+"."+f] = structZero[f]
+					}
 				} else {
 					n[id.Name] = "0"
 				}
@@ -818,10 +908,18 @@ func (p *pkgInfo) translateFunc(o *out, key, leanName string, extraParams []lean
 	for _, ep := range extraParams {
 		sc[ep.name] = ep.name
 	}
+	problemsBefore := len(o.problems)
 	body := e.block(fd.Body.List, sc, func(scope) string {
 		o.problem("%s: control reaches end of function", key)
 		return "default"
 	})
+	// containment: a function that could not be translated completely becomes `default` (and is
+	// listed under `problems`), so that the generated file still compiles and only the theorems and
+	// model answers that depend on THIS function stop checking
+	untranslatable := len(o.problems) > problemsBefore
+	if untranslatable {
+		body = "default"
+	}
 	var ps []string
 	var fnames []string
 	for f := range e.fields {
@@ -845,6 +943,9 @@ func (p *pkgInfo) translateFunc(o *out, key, leanName string, extraParams []lean
 	// overflow companion: true iff some +, -, *, unary -, / on the executed path leaves int64 (or divides by 0)
 	e2 := &intEnv{p: p, o: &out{}, ctx: key, recv: e.recv, fields: map[string]bool{}, ovfMode: true}
 	ovf := e2.block(fd.Body.List, sc, func(scope) string { return "false" })
+	if untranslatable {
+		ovf = "true"
+	}
 	o.line("def %sOvf %s : Bool :=\n  %s", leanName, strings.Join(ps, " "), ovf)
 }
 
@@ -968,28 +1069,128 @@ func main() {
 			o.line("def cubeInit2 : Int := %s", v)
 		}
 	}
-	// initial incr / remainder of computeRootDigits
+	// initial incr / remainder of computeRootDigits, found by ROLE: `incr` is the variable handed
+	// to manager.Next inside the returned closure, `remainder` the one compared with it in the digit
+	// loop; their initial values come from the statements before the closure (big.NewInt(k),
+	// new(big.Int), var x big.Int, x.Set(const), x.SetInt64(k), new(big.Int).Set(const), ...)
 	{
 		fd := p.funcs["computeRootDigits"]
 		incr, rem := int64(-999), int64(-999)
 		if fd != nil {
-			for _, st := range fd.Body.List {
-				as, ok := st.(*ast.AssignStmt)
-				if !ok || len(as.Lhs) != 1 || len(as.Rhs) != 1 {
-					continue
+			incrVar, remVar := "", ""
+			identOf := func(e ast.Expr) string {
+				if u, ok := e.(*ast.UnaryExpr); ok && u.Op == token.AND {
+					e = u.X
 				}
-				id, ok := as.Lhs[0].(*ast.Ident)
+				if id, ok := e.(*ast.Ident); ok {
+					return id.Name
+				}
+				return ""
+			}
+			ast.Inspect(fd.Body, func(n ast.Node) bool {
+				c, ok := n.(*ast.CallExpr)
 				if !ok {
-					continue
+					return true
 				}
-				if n, ok := p.bigNewInt(as.Rhs[0]); ok {
-					switch id.Name {
-					case "incr":
-						incr = n
-					case "remainder":
-						rem = n
+				if sel, ok := c.Fun.(*ast.SelectorExpr); ok && sel.Sel.Name == "Next" && len(c.Args) == 1 {
+					incrVar = identOf(c.Args[0])
+				}
+				return true
+			})
+			ast.Inspect(fd.Body, func(n ast.Node) bool {
+				f, ok := n.(*ast.ForStmt)
+				if !ok || f.Cond == nil {
+					return true
+				}
+				ast.Inspect(f.Cond, func(m ast.Node) bool {
+					c, ok := m.(*ast.CallExpr)
+					if !ok {
+						return true
+					}
+					if sel, ok := c.Fun.(*ast.SelectorExpr); ok && sel.Sel.Name == "Cmp" && len(c.Args) == 1 && identOf(c.Args[0]) == incrVar && incrVar != "" {
+						remVar = identOf(sel.X)
+					}
+					return true
+				})
+				return true
+			})
+			vals := map[string]int64{}
+			var valueOf func(e ast.Expr) (int64, bool)
+			valueOf = func(e ast.Expr) (int64, bool) {
+				if n, ok := p.bigNewInt(e); ok {
+					return n, true
+				}
+				if u, ok := e.(*ast.UnaryExpr); ok && u.Op == token.AND {
+					return valueOf(u.X)
+				}
+				if id, ok := e.(*ast.Ident); ok {
+					if v, ok := vals[id.Name]; ok {
+						return v, true
+					}
+					return p.bigConst(id.Name)
+				}
+				c, ok := e.(*ast.CallExpr)
+				if !ok {
+					return 0, false
+				}
+				if id, ok := c.Fun.(*ast.Ident); ok && id.Name == "new" { // new(big.Int)
+					return 0, true
+				}
+				if sel, ok := c.Fun.(*ast.SelectorExpr); ok && len(c.Args) == 1 {
+					switch sel.Sel.Name {
+					case "Set":
+						return valueOf(c.Args[0])
+					case "SetInt64", "SetUint64":
+						return p.evalConst(c.Args[0])
 					}
 				}
+				return 0, false
+			}
+			for _, st := range fd.Body.List {
+				switch v := st.(type) {
+				case *ast.AssignStmt:
+					if len(v.Lhs) == len(v.Rhs) {
+						for i := range v.Lhs {
+							if id, ok := v.Lhs[i].(*ast.Ident); ok {
+								if n, ok := valueOf(v.Rhs[i]); ok {
+									vals[id.Name] = n
+								}
+							}
+						}
+					}
+				case *ast.DeclStmt:
+					if gd, ok := v.Decl.(*ast.GenDecl); ok {
+						for _, sp := range gd.Specs {
+							if vs, ok := sp.(*ast.ValueSpec); ok {
+								for i, id := range vs.Names {
+									if i < len(vs.Values) {
+										if n, ok := valueOf(vs.Values[i]); ok {
+											vals[id.Name] = n
+										}
+									} else if p.src(vs.Type) == "big.Int" {
+										vals[id.Name] = 0 // the zero value of big.Int is 0
+									}
+								}
+							}
+						}
+					}
+				case *ast.ExprStmt: // x.Set(y) / x.SetInt64(k) as a statement
+					if c, ok := v.X.(*ast.CallExpr); ok {
+						if sel, ok := c.Fun.(*ast.SelectorExpr); ok {
+							if name := identOf(sel.X); name != "" && (sel.Sel.Name == "Set" || sel.Sel.Name == "SetInt64") {
+								if n, ok := valueOf(c); ok {
+									vals[name] = n
+								}
+							}
+						}
+					}
+				}
+			}
+			if v, ok := vals[incrVar]; ok {
+				incr = v
+			}
+			if v, ok := vals[remVar]; ok {
+				rem = v
 			}
 		}
 		if incr == -999 || rem == -999 {
